@@ -3,7 +3,7 @@ import GoSSE.Proofs.JoeInv
 namespace GoSSE.Proofs.Joe
 open GoSSE.Model.Joe
 
-theorem step_inv_subCall {s s' : St} (h : Inv s) (i : SubId) (hs : step s (.subCall i) = some s') : Inv s' := by
+theorem step_inv_subCall {c : Cfg} {s s' : St} (h : Inv s) (i : SubId) (hs : step c s (.subCall i) = some s') : Inv s' := by
   simp only [step] at hs
   split at hs
   · rename_i hpc
@@ -11,7 +11,7 @@ theorem step_inv_subCall {s s' : St} (h : Inv s) (i : SubId) (hs : step s (.subC
     exact inv_setSub h i _ rfl (fun _ => Or.inl hpc) (by simp)
   · simp at hs
 
-theorem step_inv_subClosedEarly {s s' : St} (h : Inv s) (i : SubId) (hs : step s (.subClosedEarly i) = some s') : Inv s' := by
+theorem step_inv_subClosedEarly {c : Cfg} {s s' : St} (h : Inv s) (i : SubId) (hs : step c s (.subClosedEarly i) = some s') : Inv s' := by
   simp only [step] at hs
   split at hs
   · rename_i hg
@@ -19,18 +19,18 @@ theorem step_inv_subClosedEarly {s s' : St} (h : Inv s) (i : SubId) (hs : step s
     exact inv_setSub h i _ rfl (by simp) (fun _ _ => Or.inl (h.fresh i (Or.inr hg.1)).2)
   · simp at hs
 
-theorem step_inv_subSeeCancel {s s' : St} (h : Inv s) (i : SubId) (hs : step s (.subSeeCancel i) = some s') : Inv s' := by
+theorem step_inv_subSeeCancel {c : Cfg} {s s' : St} (h : Inv s) (i : SubId) (hs : step c s (.subSeeCancel i) = some s') : Inv s' := by
   simp only [step] at hs
   split at hs
   · simp only [Option.some.injEq] at hs; subst hs
     exact inv_setSub h i _ rfl (by simp) (by simp)
   · simp at hs
 
-theorem step_inv_cancel {s s' : St} (h : Inv s) (i : SubId) (hs : step s (.cancel i) = some s') : Inv s' := by
+theorem step_inv_cancel {c : Cfg} {s s' : St} (h : Inv s) (i : SubId) (hs : step c s (.cancel i) = some s') : Inv s' := by
   simp only [step, Option.some.injEq] at hs; subst hs
   exact inv_setSub h i _ rfl (fun x => x) (fun r hr => h.ret i r hr)
 
-theorem step_inv_subRecv {s s' : St} (h : Inv s) (i : SubId) (hs : step s (.subRecv i) = some s') : Inv s' := by
+theorem step_inv_subRecv {c : Cfg} {s s' : St} (h : Inv s) (i : SubId) (hs : step c s (.subRecv i) = some s') : Inv s' := by
   simp only [step] at hs
   split at hs
   · rename_i hpc
@@ -67,7 +67,7 @@ theorem step_inv_subRecv {s s' : St} (h : Inv s) (i : SubId) (hs : step s (.subR
       · simp at hs
   · simp at hs
 
-theorem step_inv_unsubAccept {s s' : St} (h : Inv s) (i : SubId) (hs : step s (.unsubAccept i) = some s') : Inv s' := by
+theorem step_inv_unsubAccept {c : Cfg} {s s' : St} (h : Inv s) (i : SubId) (hs : step c s (.unsubAccept i) = some s') : Inv s' := by
   simp only [step] at hs
   split at hs
   · rename_i hg
@@ -111,8 +111,8 @@ theorem inv_register {s : St} (h : Inv s) (i : SubId) (st : SubSt) (hpc : (s.sub
       · simp [hki, hn]
       · simp [hj] at hf
 
-theorem step_inv_subAccept {s s' : St} (h : Inv s) (i : SubId) (rc : List Call) (o : ROutcome)
-    (hs : step s (.subAccept i rc o) = some s') : Inv s' := by
+theorem step_inv_subAccept {c : Cfg} {s s' : St} (h : Inv s) (i : SubId) (rc : List Call) (o : ROutcome)
+    (hs : step c s (.subAccept i rc o) = some s') : Inv s' := by
   simp only [step] at hs
   split at hs
   · rename_i hg
@@ -150,8 +150,8 @@ theorem step_inv_subAccept {s s' : St} (h : Inv s) (i : SubId) (rc : List Call) 
       · simp at hs
   · simp at hs
 
-theorem step_inv_pubAccept {s s' : St} (h : Inv s) (p : PubId) (o : POutcome)
-    (hs : step s (.pubAccept p o) = some s') : Inv s' := by
+theorem step_inv_pubAccept {c : Cfg} {s s' : St} (h : Inv s) (p : PubId) (o : POutcome)
+    (hs : step c s (.pubAccept p o) = some s') : Inv s' := by
   simp only [step] at hs
   split at hs
   · rename_i hg
@@ -159,7 +159,7 @@ theorem step_inv_pubAccept {s s' : St} (h : Inv s) (p : PubId) (o : POutcome)
     · simp at hs
     · simp only [Option.some.injEq] at hs; subst hs
       have hj := hg.2.1
-      have := inv_joe h (.fanout p (s.subscribers.filter fun i => topicsIntersect (s.subs i).topics (s.pubs p).topics))
+      have := inv_joe h (.fanout p (s.subscribers.filter fun i => topicsIntersect (c.subTopics i) (c.pubTopics p)))
         (by simp [hj]) (by simp)
         (by
           intro p' rest' e
@@ -171,8 +171,8 @@ theorem step_inv_pubAccept {s s' : St} (h : Inv s) (p : PubId) (o : POutcome)
   · simp at hs
 
 
-theorem step_inv_fanStep {s s' : St} (h : Inv s) (i : SubId) (a b : Bool)
-    (hs : step s (.fanStep i a b) = some s') : Inv s' := by
+theorem step_inv_fanStep {c : Cfg} {s s' : St} (h : Inv s) (i : SubId) (a b : Bool)
+    (hs : step c s (.fanStep i a b) = some s') : Inv s' := by
   simp only [step] at hs
   split at hs
   · rename_i p rest hj
@@ -242,7 +242,7 @@ theorem step_inv_fanStep {s s' : St} (h : Inv s) (i : SubId) (a b : Bool)
     · simp at hs
   · simp at hs
 
-theorem step_inv_fanRemove {s s' : St} (h : Inv s) (hs : step s .fanRemove = some s') : Inv s' := by
+theorem step_inv_fanRemove {c : Cfg} {s s' : St} (h : Inv s) (hs : step c s .fanRemove = some s') : Inv s' := by
   simp only [step] at hs
   split at hs
   · rename_i p i rest hj
@@ -253,7 +253,7 @@ theorem step_inv_fanRemove {s s' : St} (h : Inv s) (hs : step s .fanRemove = som
     exact h1
   · simp at hs
 
-theorem step_inv_fanDone {s s' : St} (h : Inv s) (hs : step s .fanDone = some s') : Inv s' := by
+theorem step_inv_fanDone {c : Cfg} {s s' : St} (h : Inv s) (hs : step c s .fanDone = some s') : Inv s' := by
   simp only [step] at hs
   split at hs
   · rename_i p hj
@@ -261,7 +261,7 @@ theorem step_inv_fanDone {s s' : St} (h : Inv s) (hs : step s .fanDone = some s'
     exact inv_joe h .idle (by simp [hj]) (by simp) (by simp) (by simp)
   · simp at hs
 
-theorem step_inv_loopExit {s s' : St} (h : Inv s) (hs : step s .loopExit = some s') : Inv s' := by
+theorem step_inv_loopExit {c : Cfg} {s s' : St} (h : Inv s) (hs : step c s .loopExit = some s') : Inv s' := by
   simp only [step] at hs
   split at hs
   · rename_i hg
@@ -273,7 +273,7 @@ theorem step_inv_loopExit {s s' : St} (h : Inv s) (hs : step s .loopExit = some 
   · simp at hs
 
 /-- every transition preserves the invariant -/
-theorem step_inv {s s' : St} (h : Inv s) (l : Label) (hs : step s l = some s') : Inv s' := by
+theorem step_inv {c : Cfg} {s s' : St} (h : Inv s) (l : Label) (hs : step c s l = some s') : Inv s' := by
   cases l with
   | subCall i => exact step_inv_subCall h i hs
   | subAccept i rc o => exact step_inv_subAccept h i rc o hs
@@ -336,7 +336,7 @@ theorem step_inv {s s' : St} (h : Inv s) (l : Label) (hs : step s l = some s') :
   | shutCancel k =>
     simp only [step, Option.some.injEq] at hs; subst hs; exact inv_setShut h _ _
 
-theorem reachable_inv {s : St} (h : Reachable s) : Inv s := by
+theorem reachable_inv {c : Cfg} {s : St} (h : Reachable c s) : Inv s := by
   induction h with
   | init hi => exact inv_init hi
   | step _ hs ih => exact step_inv ih _ hs
